@@ -11,6 +11,7 @@ import (
 	"fmt"
 	"io"
 	"sort"
+	"strings"
 	"testing/iotest"
 
 	"github.com/hyperjumptech/grule-rule-engine/ast"
@@ -184,6 +185,56 @@ func c12Behaviour(c *Ctx, idx, bi int, cr *CaseResult) bool {
 	return true
 }
 
+// c12Big stores, loads and runs a rule set with very large fields; false = violation.
+func c12Big(c *Ctx, idx int, cr *CaseResult) bool {
+	r := c.Rng(idx, 9000)
+	big := strings.Repeat("0123456789abcdef", 4200+r.Intn(600)) // ~70 KB
+	var conj strings.Builder
+	n := 60 + r.Intn(60)
+	for i := 0; i < n; i++ {
+		fmt.Fprintf(&conj, "F.A != %d && ", 1000+i)
+	}
+	text := `rule Big "large literal" salience 2 { when F.S1 != "` + big + `" && F.A < 3 then F.A = F.A + 1; F.S2 = "` + big[:1000] + `"; }
+rule Wide "many conjuncts" salience 1 { when ` + conj.String() + `F.B < 2 then F.B = F.B + 1; }`
+	lib, err := BuildLib(text)
+	if err != nil {
+		cr.inconclusive("large rule set rejected by the builder (judged by C17)")
+		return true
+	}
+	cur := lib
+	for round := 1; round <= 2; round++ {
+		var b bytes.Buffer
+		if err := cur.StoreKnowledgeBaseToWriter(&b, kbName, kbVer); err != nil {
+			cr.violate(fmt.Sprintf("store (generation %d) of a rule set with a %d-byte string literal and %d conjuncts failed: %v", round, len(big), n, err), map[string]interface{}{"literal_bytes": len(big), "conjuncts": n})
+			return false
+		}
+		l2, err, pn := loadVia("plain", b.Bytes())
+		cr.Evals++
+		if err != nil || pn != nil {
+			cr.violate(fmt.Sprintf("generation %d: the stored stream (%d bytes) of a rule set with a %d-byte string literal and %d conjuncts does not load: err=%v panic=%v", round, b.Len(), len(big), n, err, pn), map[string]interface{}{"literal_bytes": len(big), "conjuncts": n})
+			return false
+		}
+		// behaviour: both rules count up to their bounds
+		inst, err := l2.NewKnowledgeBaseInstance(kbName, kbVer)
+		if err != nil {
+			cr.violate(fmt.Sprintf("generation %d: no instance of the loaded large knowledge base: %v", round, err), nil)
+			return false
+		}
+		st := GenState(c.Rng(idx, 9001))
+		f := st["F"].(*Fact)
+		f.A, f.B, f.S1 = 0, 0, "x"
+		res := Run(inst, nil, st, RunCfg{MaxCycle: 20, NoSnap: true})
+		cr.Evals++
+		if res.Err != nil || res.Panic != nil || f.A != 3 || f.B != 2 || f.S2 != big[:1000] {
+			cr.violate(fmt.Sprintf("generation %d: the loaded large knowledge base does not behave like the stored rules: A=%d (want 3) B=%d (want 2) err=%v panic=%v", round, f.A, f.B, res.Err, res.Panic), nil)
+			return false
+		}
+		cr.inc("large_field_round_trips")
+		cur = l2
+	}
+	return true
+}
+
 var c12Opts = TraceOpts{MinRules: 1, MaxRules: 4, MinPool: 3, MaxPool: 7, Control: true, Announce: true, Calls: true, Strs: true, Times: true, Depth: 3}
 
 func runC12Case(c *Ctx, idx int) *CaseResult {
@@ -288,6 +339,13 @@ func runC12Case(c *Ctx, idx int) *CaseResult {
 	}
 	for bi := 0; bi < nb; bi++ {
 		if !c12Behaviour(c, idx, bi, cr) {
+			return cr
+		}
+	}
+	// ---- (a'') large legal fields: a string literal of ~70 KB and a condition of many conjuncts
+	// (no length a valid rule set can reach may be mistaken for a damaged length prefix)
+	if idx%4 == 0 {
+		if !c12Big(c, idx, cr) {
 			return cr
 		}
 	}
